@@ -34,6 +34,7 @@ MUTANTS = [
     {"name": "setrepl-second-writer", "file": "src/replication/manager.rs", "old": "    pub fn get_role_num(&self) -> (usize, usize) {", "new": "    pub fn reset_epoch(&self) {\n        self.updating_epoch.store(0, atomic::Ordering::SeqCst);\n    }\n\n    pub fn get_role_num(&self) -> (usize, usize) {", "expect": "C05.D3:single-writer:ReplicatorManager.updating_epoch"},
     {"name": "setcluster-reply-swapped", "file": "src/proxy/executor.rs", "old": "                ClusterMetaError::OldEpoch => cmd_ctx.set_resp_result(Ok(Resp::Error(\n                    response::OLD_EPOCH_REPLY", "new": "                ClusterMetaError::OldEpoch => cmd_ctx.set_resp_result(Ok(Resp::Error(\n                    response::TRY_AGAIN_REPLY", "expect": "C05.D4:setcluster:OldEpoch"},
     {"name": "replicator-kept-by-role-only", "file": "src/replication/manager.rs", "old": "            if Some(true)\n                == master_key_set\n                    .get(key)\n                    .and_then(|meta| replicator.as_ref().left().map(|m| m.get_meta() == meta))\n            {", "new": "            if replicator.is_left() && master_key_set.contains_key(key) {", "expect": "C05.D5"},
+    {"name": "epoch-gate-before-host-validation", "file": "src/replication/manager.rs", "old": "        // validation\n        for meta in masters.iter() {", "new": "        self.updating_epoch.store(epoch, atomic::Ordering::SeqCst);\n        // validation\n        for meta in masters.iter() {", "expect": "C05.D6:no-trace:update_replicators"},
 ]
 
 ERR = "proxy::cluster::ClusterMetaError"
@@ -166,6 +167,7 @@ def run(ctx):
     ctx.rule("C05.D1", "install decision table over {lt,eq,gt} x force x host-match (conditional constant propagation), for SETCLUSTER and SETREPL", exhaustive=True)
     ctx.rule("C05.D2", "atomic install: lock dominates compare and stores, guard alive in between, snapshot stored before epoch, stored values originate from the same message")
     ctx.rule("C05.D3", "single writer of MetaManager.epoch / meta_map and ReplicatorManager.updating_epoch / replicators over lib + bins")
+    ctx.rule("C05.D6", "a message refused for its host (NotMyMeta) leaves no trace: no write of the manager's epoch gate, epoch, tables or snapshot can be followed by the NotMyMeta refusal")
     ctx.rule("C05.D5", "SETREPL carries a running replicator over to the new epoch only when its metadata equals the accepted message's (role and peers); everything else is rebuilt from the message")
     ctx.rule("C05.D4", "reply mapping OldEpoch->OLD_EPOCH_REPLY, NotMyMeta->ERR_NOT_MY_META; GETEPOCH replies the installed epoch")
 
@@ -416,6 +418,7 @@ def run(ctx):
     # ---------------------------------------------------------------- D4 reply mapping
     _reply_mapping(ctx)
     _replicator_reuse(ctx)
+    _refused_leaves_no_trace(ctx)
 
 
 def _check_hosts_fn(ctx):
@@ -584,3 +587,40 @@ def _replicator_reuse(ctx):
                 ok = True
         ctx.check(ok, "C05.D5", "reuse-only-if-meta-equal#%d" % n, site(b, bb), ok="kept only when replicator.get_meta() equals the message's metadata for this node",
                   bad="a running replicator is carried over to the new epoch without comparing its metadata (peers) with the accepted message: the epoch is recorded and answered OK while the node keeps replicating from its old peer")
+
+
+def _refused_leaves_no_trace(ctx):
+    """`applies a non-forced message exactly when its epoch is strictly greater than the installed one`: a foreign message
+    that is refused with NotMyMeta must not move the epoch gate either, otherwise later legitimate messages with
+    installed < epoch <= refused epoch are answered OLD_EPOCH"""
+    F = ctx.F
+    n = 0
+    for name in ("proxy::manager::MetaManager::set_meta", "replication::manager::ReplicatorManager::update_replicators"):
+        b = F.bodies.get(name) or F.one(name.split("::", 2)[-1])
+        if b is None:
+            ctx.lost("C05.D6", name.rsplit("::", 1)[-1], "%s not found" % name)
+            continue
+        ctx.analysed(b)
+        du = DefUse(b)
+        refusals = [bb for bb, i, st in agg_sites(b, "ClusterMetaError", "NotMyMeta")]
+        # refusals produced by a helper (check_hosts): the `?` / match that returns its Err
+        for bb, t in b.calls():
+            if (callee_of(t) or "").endswith("check_hosts"):
+                refusals.append(bb)
+        writes = []
+        for bb, t, meth, fields in atomic_sites(b, du):
+            if meth in ATOMIC_WRITES and any((a or "").endswith(("MetaManager", "ReplicatorManager")) for a, _ in fields):
+                writes.append((bb, "%s.%s" % (next((f for a, f in fields if (a or "").endswith(("MetaManager", "ReplicatorManager"))), "?"), meth)))
+        for bb, t in b.calls():
+            c = callee_of(t) or ""
+            if c.rsplit("::", 1)[-1] in ("store", "swap", "rcu") and "ArcSwap" in c:
+                writes.append((bb, "snapshot." + c.rsplit("::", 1)[-1]))
+            if c.rsplit("::", 1)[-1] == "write" and "RwLock" in c:
+                writes.append((bb, "tables.write()"))
+        if not ctx.floor("C05.D6", "NotMyMeta refusals in %s" % name.rsplit("::", 1)[-1], len(refusals), 1) or not ctx.floor("C05.D6", "state writes in %s" % name.rsplit("::", 1)[-1], len(writes), 1):
+            continue
+        for wb, what in writes:
+            n += 1
+            hit = [r for r in refusals if r != wb and cfg.path_between(b, wb, r) is not None]
+            ctx.check(not hit, "C05.D6", "no-trace:%s:%s" % (name.rsplit("::", 1)[-1], what), site(b, wb), ok="%s cannot be followed by the NotMyMeta refusal" % what,
+                      bad="%s is written and the message can still be refused with NotMyMeta afterwards: a misdelivered message moves this proxy's %s, and later legitimate messages up to that epoch are answered OLD_EPOCH" % (what, "epoch gate" if "epoch" in what else "state"))
